@@ -1,7 +1,8 @@
 """C01 -- every submitted job resolves exactly once, with its own outcome."""
-from checks import poolcommon, poolreal
+from checks import feedcommon, poolcommon, poolreal
 
 
 def main(ctx):
+    feedcommon.run(ctx, 'C01')
     poolcommon.run(ctx, 'C01')
     poolreal.run(ctx, 'C01')
